@@ -42,7 +42,7 @@ RULE = ("each run draws an upstream behaviour - a complete response (every statu
         "and a downstream peer that waits or leaves early. distinct = distinct (behaviour, status "
         "class, charset, assembly, outcome) signatures; non-trivial = a fault or a non-UTF-8 / "
         "binary / redirect response was relayed")
-PROBES = ["non_utf8_text_relayed", "binary_relayed", "redirect_relayed", "refused", "blackhole",
+PROBES = ["crowd_left_before_the_request", "trickling_upstream", "non_utf8_text_relayed", "binary_relayed", "redirect_relayed", "refused", "blackhole",
           "tls_failure", "close_before_header", "close_inside_header", "garbage_header",
           "rst_in_body", "stall_timeout", "oversized", "downstream_left_early",
           "start_server_assembly", "every_status_class", "concurrent_requests_through_proxy"]
@@ -64,7 +64,7 @@ TEXTS = [("utf-8", "héllo wörld ✓\n"), ("iso-8859-1", "café crème £\n"), 
 
 
 def gen_upstream(ch, cap):
-    b = ch.choose("beh", 13, [12, 2, 2, 2, 2, 2, 2, 2, 3, 2, 2, 3, 2])
+    b = ch.choose("beh", 14, [12, 2, 2, 2, 2, 2, 2, 2, 3, 2, 2, 3, 2, 2])
     info = {"beh": b, "must": None, "stream": b"", "end": "close", "name": None}
     if b == 0 or b == 11 or b == 12:
         kind = ch.choose("rkind", 5, [4, 3, 3, 2, 2]) if b == 0 else (3 if b == 11 else 0)
@@ -147,6 +147,12 @@ def gen_upstream(ch, cap):
                     stage=stage)
         if stage == 0 and ch.chance("stall_hs", 0.3):
             info["stall_handshake"] = True
+    elif b == 13:
+        # never finishes, but keeps sending a byte at intervals shorter than the timeout
+        stage = ch.choose("tstage", 2)
+        full = b"20 text/plain\r\n" + b"partial body " * 3
+        info.update(name=f"trickle-stage{stage}", must="43", stream=full[:[7, len(full)][stage]],
+                    end="stall", trickle=True)
     elif b == 9:
         info.update(name="oversized", must="43",
                     stream=b"20 application/octet-stream\r\n" + b"z" * (cap + 1 + ch.choose("ov", 3000)))
@@ -214,19 +220,29 @@ def run_one(ch):
             script.append(("sleep", d))
         script.append(("send", c))
     script.append(("call", lambda p: marks.setdefault("t_end", net.now)))
+    if up.get("trickle"):
+        for _ in range(24):
+            script += [("sleep", T / 4.0), ("send", b"x")]
     script.append({"close": ("close",), "fin": ("fin",), "rst": ("rst",), "stall": ("stall",)}[up["end"]])
     # concurrent "noise" requests through the same proxy (one shared client inside it)
     noise_n = 0
+    mass_leave = False
     if up["beh"] not in (1, 2, 3) and not up.get("stall_handshake") and script[:1] == [("wait_line",)] \
             and ch.chance("noise", 0.3):
         noise_n = 1 + ch.choose("noisen", 3)
+        # ... or a crowd of clients that give up while their (slow) upstream fetch is pending,
+        # before the judged request arrives
+        mass_leave = ch.chance("mass_leave", 0.15)
+        if mass_leave:
+            noise_n = 16 + ch.choose("crowd", 6)
+            res.stats["crowd_left_before_the_request"] += 1
         main_tail = script[1:]
 
         def dispatch(peer):
             line = bytes(peer.rx_plain).split(b"\r\n")[0]
             if b"/noise" in line:
                 j = line.rsplit(b"/noise", 1)[1][:2].decode("ascii", "replace")
-                peer.script[peer.pc:] = [("sleep", 0.01 * (1 + len(j))),
+                peer.script[peer.pc:] = [("sleep", 1.0 if mass_leave else 0.01 * (1 + len(j))),
                                          ("send", b"20 text/plain\r\nnoise " + j.encode() + b"\n"),
                                          ("close",)]
             else:
@@ -286,10 +302,15 @@ def run_one(ch):
         noise = []
         for j in range(noise_n):
             nep = raw_connect(net, PROXY, 1965, src=("10.0.1.%d" % (j + 1), 51000 + j), tag=f"noise{j}")
-            noise.append(RawPeer(net, nep, [("sleep", ch.pick("noisedelay", [0.0, 0.001, 0.005])),
-                                            ("send", f"gemini://{PROXY}/noise{j}".encode() + b"\r\n")],
-                                 tls_ctx=sw.peer_tls_ctx(mode), name=f"noise{j}"))
+            nscript = [("sleep", ch.pick("noisedelay", [0.0, 0.001, 0.005])),
+                       ("send", f"gemini://{PROXY}/noise{j}".encode() + b"\r\n")]
+            if mass_leave:
+                nscript += [("sleep", 0.05), ("rst",) if j % 2 else ("close",)]
+            noise.append(RawPeer(net, nep, nscript, tls_ctx=sw.peer_tls_ctx(mode), name=f"noise{j}"))
         out["noise"] = noise
+        if mass_leave:
+            await asyncio.sleep(0.3)
+            t_req = net.now
         ep = raw_connect(net, PROXY, 1965, c2s=WholePolicy(0.001), s2c=WholePolicy(0.001), tag="down")
         peer = RawPeer(net, ep, dscript, tls_ctx=sw.peer_tls_ctx(mode), name="downstream")
         out["peer"] = peer
@@ -325,7 +346,7 @@ def run_one(ch):
                t_upstream_end=marks.get("t_end"), downstream_leaves=leave,
                upstream_connections=nup, request_path=req_path)
     site = f"{up['name'].split('+')[0].split('/')[0]}/{mode}"
-    for j, npeer in enumerate(out.get("noise", [])):
+    for j, npeer in enumerate(out.get("noise", []) if not mass_leave else []):
         npeer.drain_final()
         want_n = b"20 text/plain\r\nnoise " + str(j).encode() + b"\n"
         if bytes(npeer.rx_plain) != want_n:
@@ -406,6 +427,8 @@ def run_one(ch):
         res.stats[probe[name]] += 1
     if name.startswith("stall"):
         res.stats["stall_timeout"] += 1
+    if name.startswith("trickle"):
+        res.stats["trickling_upstream"] += 1
     if name.startswith("text/") and up.get("charset") not in (None, "utf-8"):
         res.stats["non_utf8_text_relayed"] += 1
     if name.startswith("status-"):
